@@ -456,6 +456,9 @@ func (e *Eng) verifyFunc(fc *FuncContract, refute bool, unrollK int) (res *FuncR
 		dynBase = a0.Name
 	}
 	tr.entry = State{Reach: tTrue, Mem: m0, Alloc: a0, Locks: vc.Fresh("L0", SMem), Ghost: vc.Fresh("G0", SMem)}
+	if m0.Op == "sym" && memAllocOf != nil {
+		memAllocOf[m0.Name] = a0
+	}
 	if fc.NoLocks {
 		// entered with no mutex held at all (callers are obliged to show it)
 		o, j := Sym("o!q", SInt), Sym("j!q", SInt)
@@ -561,7 +564,8 @@ func (e *Eng) verifyFunc(fc *FuncContract, refute bool, unrollK int) (res *FuncR
 		pn1, vars1 := mk(Add(nsym, Int(1)))
 		all := append(append([]*Term{}, vars1...), nsym)
 		vc.Oblige("induct."+ind.Name, "step", Forall(all, Implies(And(Le(Int(0), nsym), pn), pn1)), ind.Pos)
-		vc.Assume(Forall(all, Implies(Le(Int(0), nsym), pn)))
+		// as a lemma: triggered by the applications of the recursive functions it talks about
+		vc.Assume(Forall(all, Implies(Le(Int(0), nsym), pn), recAppPatterns(pn, all)...))
 	}
 	if tr.recovering && (fc.HasModifies || fc.Pure) && !refute {
 		tr.storeChecks = true
@@ -865,4 +869,62 @@ func (e *Eng) Targets(prop string) ([]*FuncContract, []*Lemma) {
 	}
 	sort.SliceStable(fs, func(i, j int) bool { return fs[i].Pkg+fs[i].Name < fs[j].Pkg+fs[j].Name })
 	return fs, ls
+}
+
+// recAppPatterns: the applications rs_f(...) inside t that mention bound variables, minimal
+// set covering all of vars (a multi-pattern); empty if some variable is not covered.
+func recAppPatterns(t *Term, vars []*Term) []*Term {
+	isVar := map[string]bool{}
+	for _, v := range vars {
+		isVar[v.Name] = true
+	}
+	var apps []*Term
+	seen := map[string]bool{}
+	var walk func(x *Term)
+	walk = func(x *Term) {
+		if strings.HasPrefix(x.Op, "rs_") {
+			m := map[string]bool{}
+			x.syms(m)
+			hit := false
+			for s := range m {
+				if isVar[s] {
+					hit = true
+				}
+			}
+			if hit && !seen[x.Key()] {
+				seen[x.Key()] = true
+				apps = append(apps, x)
+			}
+		}
+		for _, a := range x.Args {
+			walk(a)
+		}
+	}
+	walk(t)
+	covered := map[string]bool{}
+	var out []*Term
+	for _, a := range apps {
+		m := map[string]bool{}
+		a.syms(m)
+		adds := false
+		for s := range m {
+			if isVar[s] && !covered[s] {
+				adds = true
+			}
+		}
+		if adds {
+			out = append(out, a)
+			for s := range m {
+				if isVar[s] {
+					covered[s] = true
+				}
+			}
+		}
+	}
+	for _, v := range vars {
+		if !covered[v.Name] {
+			return nil
+		}
+	}
+	return out
 }
